@@ -19,6 +19,7 @@ struct World {
     Env env;
     std::vector<std::unique_ptr<IMachine>> reps;
     std::vector<uint8_t> started;   // per replica
+    std::vector<uint8_t> moved;     // per replica: moved-from (may only be destroyed or assigned to)
     Maker make;
     bool is_model = false;
     bool observe_each = false;      // full introspection after every op
